@@ -56,7 +56,12 @@ class Number(NumericElement[float]):
     """
 
     def construct(self, value, _property):  # pylint: disable=no-self-use
-        return float(value)
+        try:
+            converted = float(value)
+        except OverflowError:
+            return value
+        # Integers beyond the float range or precision are kept as they are.
+        return converted if converted == value else value
 
     @property
     def type_validator(self):
